@@ -1080,6 +1080,30 @@ def oracle_assets(h):
     return fails
 
 
+def oracle_asset_traffic(h):
+    """C09 on uuid assets: traffic stops (every drain of the history is reached) and every publication costs at most
+    clients + 1 announcements, whatever the switches are"""
+    fails = []
+    for e in h.events:
+        if e["ev"] == "drain" and not e["quiescent"]:
+            fails.append(("C09", "asset traffic does not stop: the session is not quiescent %d rounds after the last operation" % e.get("rounds", 0), {}))
+            break
+    pubs, anns = {}, {}
+    for e in h.events:
+        if e["ev"] == "op" and e["op"] == "asset_insert" and e.get("uuid"):
+            pubs[e["uuid"]] = pubs.get(e["uuid"], 0) + 1
+        if e["ev"] == "frame":
+            for m in e["recv"]:
+                k = m["msg"]["k"]
+                if k in ("mesh", "image", "audio", "mat") and m["msg"].get("id") in pubs:
+                    anns[m["msg"]["id"]] = anns.get(m["msg"]["id"], 0) + 1
+    for u, n in anns.items():
+        bound = pubs[u] * (h.nclients + 1)
+        if n > bound:
+            fails.append(("C09", "%d announcements were received for an asset published %d times in a session of %d clients (bound: publications x (clients + 1) = %d)" % (n, pubs[u], h.nclients, bound), {"uuid": u[:8]}))
+    return fails
+
+
 def asset_lines(h, count_tokens=True, skip_served=False):
     """downloadable classes (mesh / image / audio): one model instance per uuid.  The publications are replayed on
     the model, the model settles by fair rounds wherever the implementation drained, and what every peer holds
@@ -1115,8 +1139,13 @@ def asset_lines(h, count_tokens=True, skip_served=False):
                         d["script"].append("x:%d:%s:%d" % (p, name(content), tokens))
                     else:
                         d["script"].append("x:%d:%s:%s:%d" % (p, name(content), name(served), tokens))
+    cfg = peer_cfgs(h)
     for (kind, uuid), d in per.items():
         if d.get("bad") or not any(t == "d" for t in d["script"]):
+            continue
+        # the slice models peers that all replicate the class; where a switch is off the oracle alone judges
+        sw = {"material": "materials", "image": "materials", "mesh": "meshes", "audio": "audios"}[kind]
+        if not all(cfg.get(p, {}).get(sw, False) for p in range(npeers)):
             continue
         inst = "%s/%s.%s" % (h.id, kind, uuid[:8])
         if kind == "material":
@@ -1397,6 +1426,13 @@ def oracle_promo(h):
                     if pa != pb:
                         fails.append(("C07", "peer %d has a different parent link than the new host" % p, {"uuid": u[:8]}))
                         break
+                # uuid assets: what the new host holds is what every connected peer holds
+                for kind in ("material", "mesh", "image", "audio"):
+                    ha, pb2 = (ref["assets"].get(kind) or {}), (s["assets"].get(kind) or {})
+                    for u in set(ha) | set(pb2):
+                        if ha.get(u) != pb2.get(u):
+                            fails.append(("C07", "peer %d and the new host hold different content for a uuid %s after the hand-over" % (p, kind), {"uuid": u[:8]}))
+                            break
     return classify_promo(h, fails)
 
 
